@@ -34,6 +34,7 @@ RULE = (
     "return deliveries and errors in arrival order, each once (a read that would block forever is detected on a virtual-time loop); binary "
     "payload => one TransportError and later messages still arrive; faults surface as TransportError; disconnect never raises. Non-trivial "
     "= payload with ';', a prefix with '/', or an error between two good deliveries; distinct = distinct case JSON."
+    ' Round 5: deliveries carry QoS 0-2 and the retain flag; payloads contain VT/FF/FS-RS/NEL/LS/PS/CR; `deliver_odd` sends topics with empty or odd levels (the next read is the literal line, a transport error or the following message).'
 )
 ASSUMPTIONS = [
     "aiomysensors.transport.mqtt.AsyncioClient is replaced by a fake (the name the repository's tests patch); paho and the network are trusted",
@@ -439,7 +440,7 @@ def run_case(case: dict) -> Outcome:
                 try:
                     await transport.disconnect()
                     await transport.connect()
-                except Exception as err:  # noqa: BLE001
+                except BaseException as err:  # noqa: BLE001 - a CancelledError leaking out of disconnect counts (nobody cancels this task)
                     return fail(f"reconnect-raises:{type(err).__name__}", f"{where}: disconnect+connect on the same transport raised {err!r}")
                 dead = False
             elif kind == "disconnect":
